@@ -2281,7 +2281,7 @@ theorem potentialHeartbeat_safe (K : Crypto) (plain : Option Bytes) (s : MState)
     wp (potentialHeartbeat K plain) (fun _ s' => FullWF K s'.conv) (fun _ => False) s := by
   unfold potentialHeartbeat
   simp only [wp_ite', wp_pure, wp_bind, wp_getc, wp_now]
-  refine ⟨fun _ => h, fun _ => ⟨fun _ => h, fun _ => ?_⟩⟩
+  refine ⟨fun _ => h, fun _ => ⟨fun _ => h, fun _ => ⟨fun _ => h, fun _ => ?_⟩⟩⟩
   refine wp_mono _ _ _ _ _ _ (genDataMsgWithFlag_spec K _ _ _ s) ?_ ?_
   · intro r s1 hg
     have h1 : FullWF K s1.conv := FullWF.of_smp_eq K hg.2.2.1 (DataWF.gen _ _ hg h.2.2) h
